@@ -379,9 +379,11 @@ def _r5_change_propagation(model: RepoModel, rep, p2):
     relink = None
     for n in walk_no_nested(f.node):
         if isinstance(n, ast.If):
-            for body, test in ((n.body, n.test),):
-                for c in (x for b in body for x in ast.walk(b)):
-                    if isinstance(c, ast.Call) and (call_name(c) or "").endswith("update_used_symbols_to_symbol_graph") \
+            # the innermost `if` whose own body (not a nested if's) holds the call
+            for b in n.body:
+                if isinstance(b, ast.Expr) and isinstance(b.value, ast.Call):
+                    c = b.value
+                    if (call_name(c) or "").endswith("update_used_symbols_to_symbol_graph") \
                             and not any(k.arg == "only_implicitly_used_symbols" for k in c.keywords):
                         relink = (n, c)
     key = f"{PS}::update_symbols_if_changed::uses are re-linked when the in-set changed"
@@ -401,7 +403,7 @@ def _r5_change_propagation(model: RepoModel, rep, p2):
     # (ii) successors
     key = f"{PS}::update_symbols_if_changed::successors are re-visited when the out-set changed"
     sched = [n for n in walk_no_nested(f.node) if isinstance(n, ast.If) and any(
-        isinstance(c, ast.Call) and "stmts_with_symbol_update.add" in (call_name(c) or "") for b in n.body for c in ast.walk(b))]
+        isinstance(b, ast.Expr) and isinstance(b.value, ast.Call) and "stmts_with_symbol_update.add" in (call_name(b.value) or "") for b in n.body)]
     if not sched:
         rep.violation("C06.R5", key, PS, f.node.lineno, "successors are never queued when the out-set of a statement changes")
     elif compares(sched[0].test, "out_symbol_bits", p_out):
@@ -444,7 +446,8 @@ def _r6_worklist_protocol(model: RepoModel, rep, p2):
     and an edge's kind must be readable from the graph class the CFG is loaded into."""
     rep.rule("C06.R6", "work-list and edge protocol: a heap is only shrunk with heappop; the entry removed at the end of a visit is the "
                        "statement that was visited (no insertion between peek and the argument-less pop of a priority queue); the edge "
-                       "kind lookup used for the back-edge test understands the graph class control-flow graphs are loaded into", 3)
+                       "kind lookup used for the back-edge test understands the graph class control-flow graphs are loaded into; the priority "
+                       "order of the statement work-list is reverse post-order", 4)
     CS = "common_structs.py"
     wl = model.cls(CS, "SimpleWorkList")
     heap_attrs: Set[str] = set()
@@ -472,6 +475,36 @@ def _r6_worklist_protocol(model: RepoModel, rep, p2):
                           f"statements are visited before their predecessors' facts are final and use up their visit budget")
         else:
             rep.holds("C06.R6", key, CS, wl.node.lineno, "heappush / heappop only")
+    # the priority order of the statement work-list is a topological order of the acyclic part of the CFG
+    key = f"{CS}::SimpleWorkList::statements are ordered by reverse post-order"
+    ini = wl.methods.get("__init__")
+    prio = [n for n in walk_no_nested(ini.node) if isinstance(n, ast.Assign) and any(is_self_attr(t, "priority_dict") for t in n.targets)
+            and isinstance(n.value, (ast.DictComp, ast.Call))] if ini else []
+    order_src = None
+    for n in prio:
+        for x in ast.walk(n.value):
+            if isinstance(x, ast.Call) and call_name(x) == "enumerate" and x.args:
+                order_src = x.args[0]
+    if order_src is None:
+        rep.unknown("C06.R6", key, CS, wl.node.lineno, "construction of the priority table not recognised")
+    else:
+        e = order_src
+        if isinstance(e, ast.Name):
+            ds = [a.value for a in walk_no_nested(ini.node) if isinstance(a, ast.Assign) and isinstance(a.targets[0], ast.Name) and a.targets[0].id == e.id]
+            e = ds[-1] if ds else e
+        txt = " ".join(ast.unparse(e).split())
+        calls = [call_name(x) or "" for x in ast.walk(e) if isinstance(x, ast.Call)]
+        rpo = any(c.endswith("dfs_postorder_nodes") for c in calls) and any(c == "reversed" for c in calls) \
+            or any(c.endswith("topological_sort") or c.endswith("lexicographical_topological_sort") for c in calls)
+        if rpo:
+            rep.holds("C06.R6", key, CS, prio[0].lineno, f"`{txt[:100]}`")
+        elif any(c.endswith("dfs_preorder_nodes") or c.endswith("bfs_tree") or c.endswith("dfs_postorder_nodes") for c in calls):
+            rep.violation("C06.R6", key, CS, prio[0].lineno,
+                          f"the work-list ranks statements by `{txt[:100]}`, which is not a topological order of the CFG: the statement after an "
+                          f"if/else can be ranked before the end of the longer branch, is visited before that branch's out-set exists and -- "
+                          f"because a statement is re-queued only when a predecessor's out-set changes -- never sees its definitions")
+        else:
+            rep.unknown("C06.R6", key, CS, prio[0].lineno, f"order `{txt[:100]}` not recognised")
     # peek ... add ... pop
     an = p2.methods.get("analyze_stmts")
     if an is None:
@@ -586,6 +619,10 @@ C06_ADJUDICATED = {
 }
 
 MUTANTS = [
+    ("worklist-preorder", "common_structs.py",
+     _t("                cfg_order = list(reversed(list(\n                    nx.dfs_postorder_nodes(self.graph, source = entry_node)\n                )))",
+        "                cfg_order = list(nx.dfs_preorder_nodes(self.graph, source = entry_node))"),
+     "statements are ordered by reverse post-order"),
     ("first-used-symbol-only", "basics/stmt_def_use_analysis.py",
      _t("            for symbol in stmt_symbol_list:\n                if not util.isna(symbol):\n                    used_symbol_list.append(\n                        self.create_symbol_or_state_and_add_space(stmt_id, symbol)\n                    )\n",
         "            for symbol in stmt_symbol_list:\n                if not util.isna(symbol):\n                    used_symbol_list.append(\n                        self.create_symbol_or_state_and_add_space(stmt_id, symbol)\n                    )\n                else:\n                    break\n"),
